@@ -311,6 +311,10 @@ def build_cases(ctx, rng, deep=False, counts=None):
     # ---- A: accepted parameters
     C.add({"id": "acc", "op": "accept", "from": 1, "to": 401, "limit_ms": 30000})
     C.checks.append({"kind": "accept", "id": "acc"})
+    # divs = 0 is outside the property's range (4..400); recorded as a note only: `0 + 0 % 2 - 2` wraps in release builds
+    C.add({"id": "divs0", "op": "int1", "method": {"m": "simpson", "divs": 0}, "a": hx(0.0), "b": hx(1.0),
+           "f": Poly([(1.0, 0.0)]).job(), "limit_ms": 1000, "heavy": True})
+    C.checks.append({"kind": "divs0", "id": "divs0"})
     # ---- B: Simpson rule extraction
     divs_list = sample_divs(rng, ctx.tier, deep) if quick else list(range(5, 402))
     for d in divs_list:
@@ -475,7 +479,7 @@ def build_cases(ctx, rng, deep=False, counts=None):
     # a fixed complex cubic x quadratic (seed-independent): > 10^7 integrand evaluations on the pinned tree
     r5 = random.Random(5)
     gk2.append((Poly([(r5.uniform(-1, 1), r5.uniform(-1, 1)) for _ in range(4)]),
-                Poly([(r5.uniform(-1, 1), r5.uniform(-1, 1)) for _ in range(3)]), 10_000))
+                Poly([(r5.uniform(-1, 1), r5.uniform(-1, 1)) for _ in range(3)]), 6_000 if quick else 10_000))
     for p, q, lim in gk2:
         a, b, c, d = 0.0, 1.0, 0.0, 1.0
         m = {"m": "gk", "tol": hx(1e-6), "depth": 1000}
@@ -710,6 +714,11 @@ def oracle(ctx, C, obs):
                                         f"(allowed {2 * ck['tol']:.3e}) on {what}", dict(msig(m), kind="separable_product", dim=2),
                                   {"job": job_of(C, ck["id"]), "job_x": job_of(C, ck["ix"]), "job_y": job_of(C, ck["iy"]),
                                    "two_d": [val_of(o).real, val_of(o).imag], "product": [prod.real, prod.imag]})
+        elif k == "divs0":
+            o = obs.get("divs0")
+            if o and o.get("kind") == "timeout":
+                ctx.note(f"outside the property's range: Integrator::Simpson {{ divs: 0 }}.integrate does not return (usize `0 + 0 % 2 - 2` wraps in "
+                         f"release builds; {o.get('evals')} integrand evaluations in {o['limit_ms']} ms); the translated acceptance predicate rejects divs = 0")
         elif k == "gl_small_degree":
             o, o2 = obs.get(ck["id"]), obs.get(ck["same_as"])
             ctx.seen(("gl_small", ck["n"]))
